@@ -1089,6 +1089,16 @@ func c01driver(ctx *verifhlib.Ctx) {
 		for i := 0; i < k; i++ {
 			o := g.next()
 			e.exec(&o)
+			if o.k == "ustart" {
+				if _, started := e.uids[o.uid]; !started { // refused: nothing to patch or commit
+					for j, u := range g.open {
+						if u.uid == o.uid {
+							g.open = append(g.open[:j], g.open[j+1:]...)
+							break
+						}
+					}
+				}
+			}
 		}
 		// suffix: let the drain finish so that what was in memory shows up on disk
 		for i := 0; i < 3 && e.cas.VerifC01QueueLen() > 0; i++ {
